@@ -95,25 +95,27 @@ Fixpoint zset (l : list Z) (i : nat) (v : Z) : list Z :=
   | x :: r, S j => x :: zset r j v
   end.
 
-(* model state = slot 0 of the positions [p0; ...; p(nk-1); x];  kernel state = h (0 until end_warmup);
-   kernel i:  p_i := (3 p_i + p_((i+1) mod nk) + d(key) + h_i) mod 9973   (reads the state as left by kernel i-1);
+(* model state = slot 0 of the positions [p0; ...; p(nk-1); x];  kernel state = (g, h): g_i = p_i of the model
+   state init_state was handed (the chain's jittered initial value), h = 0 until end_warmup;
+   kernel i:  p_i := (3 p_i + p_((i+1) mod nk) + d(key) + h_i + g_i) mod 9973   (reads the state as left by kernel i-1);
    tune of kernel i: tuning info = the current p_i;
    end_warmup of kernel i: h_i := (sum of the tuning infos of kernel i in THIS chain's tuning history) mod 9973;
    jitter dictionary = the list of target positions (dict order); function f:  value + d'(key) *)
 Definition rw_jitter (tbl : list (N * Z)) (tgt : list nat) (ks : list key) (ms : list Z) : list Z :=
   fold_left (fun m kt => zset m (snd kt) (zget m (snd kt) + kv tbl (fst kt))%Z) (combine ks tgt) ms.
 Definition rw_world (nk : nat) (tgt : list nat) (tbl : list (N * Z)) (p : params) (sched : list econf) : world :=
-  mkW (list Z) Z (list Z) Z Z Z
+  mkW (list Z) (Z * Z) (list Z) Z Z Z
       (fun ms => ms)
       (rw_jitter tbl tgt)
-      (fun _ _ _ => 0%Z)
+      (* init_state of kernel i: g_i = p_i in the model state it is handed, h_i = 0 *)
+      (fun i _ ms => (zget ms i, 0%Z))
       (fun _ _ s _ _ _ => s)
       (fun i k s ms _ _ =>
-         (s, zset ms i ((3 * zget ms i + zget ms (S i mod nk) + kv tbl k + s) mod 9973)%Z, 0%Z))
+         (s, zset ms i ((3 * zget ms i + zget ms (S i mod nk) + kv tbl k + snd s + fst s) mod 9973)%Z, 0%Z))
       (fun _ _ s _ _ _ => s)
       (fun i _ s ms _ _ _ => (s, zget ms i))
-      (fun i _ _ _ ti =>
-         (fold_left Z.add (map snd (filter (fun x => Nat.eqb (fst x) i) ti)) 0 mod 9973)%Z)
+      (fun i _ s _ ti =>
+         (fst s, (fold_left Z.add (map snd (filter (fun x => Nat.eqb (fst x) i) ti)) 0 mod 9973)%Z))
       (fun _ _ _ _ _ => 0%Z)
       p sched false.
 
